@@ -601,7 +601,12 @@ class OpsMixin:
             else:
                 raise OutOfSubset('subscript of constant ' + repr(obj))
         obj = self.val(obj)
-        t = static_tag(obj) or self.tag(obj)
+        t = static_tag(obj)
+        if t is None and self.spec_mode:
+            iv = z3.simplify(self.as_int(idx)) if (is_val(idx) and static_tag(idx) == 'VInt') else None
+            t = 'VTup' if (iv is not None and z3.is_int_value(iv)) else 'VRef'
+        if t is None:
+            t = self.tag(obj)
         if t == 'VStr':
             s = Value.s(obj)
             n = z3.Length(s)
